@@ -40,6 +40,8 @@ where
     } = proof;
 
     let cap_height = params.config.cap_height;
+    // One commit-phase cap per reduction step: the verifier indexes both by the step number.
+    ensure!(commit_phase_merkle_caps.len() == params.reduction_arity_bits.len());
     for cap in commit_phase_merkle_caps {
         // Compare lengths rather than calling `height()`, which panics when the length of a
         // (malformed) cap is not a power of two.
